@@ -141,6 +141,13 @@ def main(argv: list[str] | None = None) -> int:
         return shard_main(args)
 
     prop, tier, seed = args.prop, args.tier, args.seed
+    if args.replay:
+        try:
+            if json.loads(Path(args.replay).read_text()).get("sig", "").startswith("extent_grew:"):
+                # an extent violation is a property of the whole exhaustive workload: replay = run that workload again
+                args.replay = None
+        except Exception:
+            pass
     t0 = time.time()
     common.sweep_stale_scratch()
     mod = importlib.import_module(f"vmon.props.{prop.lower()}")
